@@ -45,6 +45,10 @@ impl Outcome {
     }
 }
 
+pub fn from_milp_pub(s: LpSolution<MILPValue>) -> Sol {
+    from_milp(s)
+}
+
 fn from_milp(s: LpSolution<MILPValue>) -> Sol {
     Sol {
         names: s.assignment().iter().map(|a| a.name.clone()).collect(),
